@@ -98,6 +98,34 @@ def impl_read(data):
     return 'ok' + (' ' + parsing.canon_list(back) if back else ''), fail
 
 
+def bare_name_case(plaintext):
+    """A file name without a directory part, with the working directory on another filesystem than the temp directory."""
+    import tempfile
+    import mido
+    base = '/dev/shm'
+    try:
+        if not os.path.isdir(base) or os.stat(base).st_dev == os.stat(tempfile.gettempdir()).st_dev:
+            return None
+        d = tempfile.mkdtemp(prefix='verif_c19_', dir=base)
+    except OSError:
+        return None
+    old = os.getcwd()
+    try:
+        os.chdir(d)
+        ms = [mido.Message('sysex', data=(1, 2, 3)), mido.Message('clock'), mido.Message('sysex', data=())]
+        try:
+            mido.write_syx_file('dump.syx', ms, plaintext=plaintext)
+            back = mido.read_syx_file('dump.syx')
+        except Exception as e:
+            return f'write/read of a bare file name in a directory on another filesystem raised {type(e).__name__}: {e}'
+        if back != [ms[0], ms[2]]:
+            return f'bare file name on another filesystem: read back {back!r}'
+        return None
+    finally:
+        os.chdir(old)
+        shutil.rmtree(d, ignore_errors=True)
+
+
 def _rt_chunk(cs):
     return [impl_roundtrip(c) for c in cs]
 
@@ -127,6 +155,10 @@ def gen(ck):
         rts.append((many, False))
         rts.append((many, True))
         rts.append(([('sysex', {'data': (1, 2, 3)})] + [('clock', {})] * nmsg + [('sysex', {'data': ()})], False))
+    # very long payloads: no size is special
+    for ln in ([200000, 1100000] if ck.tier == 'quick' else [196606, 196607, 200000, 1048577, 3000000]):
+        rts.append(([('sysex', {'data': (1,)}), ('sysex', {'data': tuple((i * 13) % 128 for i in range(ln))}), ('sysex', {'data': (2, 3)})], False))
+    rts.append(([('sysex', {'data': tuple((i * 11) % 128 for i in range(200000))})], True))
     reads = []
     for _ in range(n):
         # layouts of valid text
@@ -182,13 +214,18 @@ def run(ck):
             if fail:
                 ck.oracle_fail({'desc': [[t, {k: list(v) if k == 'data' else v for k, v in d.items()}] for t, d in desc],
                                 'plaintext': plaintext}, fail)
-            if data is not None:
+            if data is not None and len(data) <= 30000:
                 wreq.append('syxwrite %s %s' % ('text' if plaintext else 'bin', ' | '.join(msgs.canon_vals(t, d) for t, d in desc)))
                 wimpl.append(' '.join(map(str, data)))
                 rreq.append('syxread ' + ' '.join(map(str, data)))
                 rimpl.append(line)
         ck.compare('syx.write', wreq, wimpl, ck.driver.run(wreq))
         ck.compare('syx.read', rreq, rimpl, ck.driver.run(rreq))
+        for plaintext in (False, True):
+            ck.evaluations += 1
+            f = bare_name_case(plaintext)
+            if f:
+                ck.oracle_fail({'bare_name': plaintext}, f)
         rres = [r for part in pool_map(_rd_chunk, list(chunks(reads, 500))) for r in part]
         lreq = []
         for data, (line, fail) in zip(reads, rres):
@@ -207,6 +244,8 @@ def run(ck):
 
 
 def oracle(case):
+    if 'bare_name' in case:
+        return bare_name_case(case['bare_name'])
     if 'bytes' in case:
         return impl_read(case['bytes'])[1]
     desc = [(t, {k: tuple(v) if k == 'data' else v for k, v in d.items()}) for t, d in case['desc']]
